@@ -142,4 +142,7 @@ def run(facts, tier):
                     break
     res.oblige(1, True)
     res.functions_analysed = len(reach3)
+    # equal documents: item equality is structural
+    from props import c04
+    c04.structural_eq(facts, res, "R19-4")
     return res
